@@ -351,8 +351,7 @@ def check(ctx, mod, fn, rule, sym, spec, real):
     rep = ctx.rep
     name = fn.name
     try:
-        a = scev.Aff(fn, lookup=lambda x: mod.functions.get(x))
-        impl = a.emit()
+        a, impl = scev.emit_pruned(lambda: scev.Aff(fn, lookup=lambda x: mod.functions.get(x)))
         if rule == 'F':
             bad = guard_order(impl)
             if bad:
